@@ -202,6 +202,20 @@ def run(rep, tier, seed):
                                   f'halts or spins out after {a.split(":")[1]} cycles (verified replay)'))
         else:
             nofuel += 1
+    # (b') the prover's STORED rules with their minimal signatures and edge flags (second hook), code vs model:
+    # MinSig / EnumTape offsets and edges are the state the property is anchored in; a deviation there usually
+    # does not change any application in the same run (added after the self-test sweep: a mutant of get_min_sig survived)
+    rr = [(cid, p, lim) for cid, p, lim in cs if (C02.parse_answer(h.get(cid, '')) or {'napps': 0})['napps'] > 0]
+    rl = [f'{cid}R|proverrules|{p}|{lim}' for cid, p, lim in rr]
+    hr, mr = core.run_bbh(rl), core.run_bbm(rl)
+    nrules = 0
+    for cid, p, lim in rr:
+        a, b = hr.get(cid + 'R', 'MISSING-H'), mr.get(cid + 'R', 'MISSING-M')
+        if a != b:
+            diffs.append((cid, f'proverrules|{p}|{lim}', a[:300], b[:300]))
+        elif '|' in a:
+            nrules += int(a.split('|')[0])
+    rep.coverage['stored_rules_compared'] = {'runs': len(rr), 'rules': nrules}
     # (c) the last applications of EVERY application (also those over the budget), one at a time
     flags, bstats = boundary_checks(allapps, tier)
     diverging = {d[0] for d in diffs}
